@@ -144,6 +144,78 @@ fn stress(id0: &mut u64, items: &[String], threads: usize, rounds: usize, rng: &
     }
 }
 
+/// 40 items of increasing length are matched; a 41st, shorter one is pushed by another thread that is held inside its
+/// fill callback while a run scans past its (reserved, unpublished) slot, and released afterwards.
+fn late_push(id: u64, pat: &str, threads: usize) -> String {
+    let mut items: Vec<String> = (0..40).map(|k| format!("a{}", "b".repeat(k + 2))).collect();
+    items.push("ab".to_string());
+    let mut out = String::new();
+    let _ = write!(out, "{{\"id\":{},\"threads\":{},\"n\":{},\"pattern\":{:?},\"items\":[", id, threads, items.len(), pat);
+    let mut m = Matcher::new(Config::DEFAULT);
+    let p = Pattern::parse(pat, CaseMatching::Smart, Normalization::Smart);
+    for (k, it) in items.iter().enumerate() {
+        if k > 0 {
+            out.push(',');
+        }
+        let h = Utf32String::from(it.as_str());
+        let _ = write!(out, "[{},{}]", h.len(), p.score(h.slice(..), &mut m).map_or(-1, |s| s as i64));
+    }
+    out.push(']');
+    let res = std::panic::catch_unwind(|| {
+        let mut nucleo: Nucleo<String> = Nucleo::new(Config::DEFAULT, Arc::new(|| {}), Some(threads), 1);
+        let inj = nucleo.injector();
+        for it in &items[..40] {
+            inj.push(it.clone(), |s, cols| cols[0] = s.as_str().into());
+        }
+        nucleo.pattern.reparse(0, pat, CaseMatching::Smart, Normalization::Smart, false);
+        let (entered_tx, entered_rx) = std::sync::mpsc::channel::<()>();
+        let (go_tx, go_rx) = std::sync::mpsc::channel::<()>();
+        let inj2 = nucleo.injector();
+        let late = items[40].clone();
+        let h = std::thread::spawn(move || {
+            inj2.push(late, move |s, cols| {
+                let _ = entered_tx.send(());
+                let _ = go_rx.recv_timeout(std::time::Duration::from_secs(5));
+                cols[0] = s.as_str().into();
+            });
+        });
+        let _ = entered_rx.recv_timeout(std::time::Duration::from_secs(5));
+        // runs that see the slot reserved but not published
+        for _ in 0..200 {
+            if !nucleo.tick(20).running {
+                break;
+            }
+        }
+        let _ = go_tx.send(());
+        let _ = h.join();
+        let mut guard = 0;
+        loop {
+            let st = nucleo.tick(20);
+            guard += 1;
+            if !st.running || guard > 2000 {
+                break;
+            }
+        }
+        let snap = nucleo.snapshot();
+        let ms: Vec<(i64, u32)> = snap.matches().iter().map(|m| (if m.idx == u32::MAX { -1 } else { m.idx as i64 }, m.score)).collect();
+        (snap.item_count(), ms, guard > 2000)
+    });
+    match res {
+        Ok((count, ms, stuck)) => {
+            let _ = write!(out, ",\"panic\":false,\"stuck\":{},\"count\":{},\"matches\":[", stuck, count);
+            for (k, (i, s)) in ms.iter().enumerate() {
+                if k > 0 {
+                    out.push(',');
+                }
+                let _ = write!(out, "[{},{}]", i, s);
+            }
+            out.push_str("]}");
+        }
+        Err(_) => out.push_str(",\"panic\":true,\"stuck\":false,\"count\":0,\"matches\":[]}"),
+    }
+    out
+}
+
 pub fn run(tier: &str, seed: u64, shards: usize, outdir: &str, stress_only: bool) {
     std::fs::create_dir_all(outdir).unwrap();
     let thorough = tier == "thorough";
@@ -164,7 +236,12 @@ pub fn run(tier: &str, seed: u64, shards: usize, outdir: &str, stress_only: bool
             for pat in PATS {
                 for threads in [1usize, 2, 3, 8] {
                     id += 1;
-                    writeln!(files[(id as usize) % shards], "{}", one(id, &items, pat, threads)).unwrap();
+                    // marker for the driver: a panic on a pool thread makes rayon abort the whole process
+                    let _ = std::fs::write(format!("{}/current.json", outdir), format!("{{\"id\":{},\"what\":\"complete run\",\"pattern\":{:?},\"n\":{},\"threads\":{}}}", id, pat, items.len(), threads));
+                    let rec = one(id, &items, pat, threads);
+                    let f = &mut files[(id as usize) % shards];
+                    writeln!(f, "{}", rec).unwrap();
+                    f.flush().unwrap();
                 }
             }
         }
@@ -172,9 +249,29 @@ pub fn run(tier: &str, seed: u64, shards: usize, outdir: &str, stress_only: bool
     // fast typing over a big item set: snapshots taken while runs are being cancelled
     let big = gen_items(if thorough { 60000 } else { 20000 }, &mut rng);
     for threads in [2usize, 4, 8] {
-        let mut emit = |rid: u64, rec: String| writeln!(files[(rid as usize) % shards], "{}", rec).unwrap();
+        let _ = std::fs::write(format!("{}/current.json", outdir), format!("{{\"id\":{},\"what\":\"fast typing\",\"pattern\":\"(several)\",\"n\":{},\"threads\":{}}}", id + 1, big.len(), threads));
+        let mut emit = |rid: u64, rec: String| {
+            let f = &mut files[(rid as usize) % shards];
+            writeln!(f, "{}", rec).unwrap();
+            f.flush().unwrap();
+        };
         stress(&mut id, &big, threads, if thorough { 120 } else { 30 }, &mut rng, &mut emit);
     }
+    // a push that is in flight while a run scans, completes afterwards and is picked up by a run with nothing else
+    // new: the late item has to be sorted into its place (it is the shortest, so it belongs first)
+    if !stress_only {
+        for threads in [1usize, 2, 4] {
+            for pat in ["a", "!x"] {
+                id += 1;
+                let _ = std::fs::write(format!("{}/current.json", outdir), format!("{{\"id\":{},\"what\":\"late push\",\"pattern\":{:?},\"n\":41,\"threads\":{}}}", id, pat, threads));
+                let rec = late_push(id, pat, threads);
+                let f = &mut files[(id as usize) % shards];
+                writeln!(f, "{}", rec).unwrap();
+                f.flush().unwrap();
+            }
+        }
+    }
+    let _ = std::fs::remove_file(format!("{}/current.json", outdir));
     for f in files.iter_mut() {
         f.flush().unwrap();
     }
